@@ -6,6 +6,7 @@ import Blue.Proofs.WaitListRing
 import Blue.Proofs.ConstsTieC06
 import Blue.Proofs.ConstsTieC20
 import Blue.Proofs.StallTree
+import Blue.Proofs.StallTreeDown
 import Blue.Proofs.FlushReq
 /-! # Property C20 — writes keep completing: ingest and compaction never wait on each other forever
 
@@ -65,13 +66,30 @@ through a state in which ingest is not stalled and no ingester is asleep; `measu
 potential of the WHOLE tree (`pot`: every version once per level it can still sink through) plus
 the compaction threads' weights, so nothing is asked of which compactions the selector prefers
 (`relieving_not_guaranteed`: it does hand out a move below level 0 while ingest is stalled); its two
-hypotheses are per-install facts evaluated on the run, not derived from the selector / the merge
-here: a compaction in flight has an input holding a version above its output level (`downSt`), and
-an install adds no version (`outsOK`); `install_lowers_potential` is the step lemma.
+hypotheses are per-install facts evaluated on the run: a compaction in flight has an input holding
+a version above its output level (`downSt`), and an install adds no version (`outsOK`) — derived in
+block `StallTreeDown` below; `install_lowers_potential` is the step lemma.
 `stalled_ingest_released_partial` is the same with level 0 alone as the measure, for runs in which
 every compaction in flight while stalled takes a file out of level 0.  Together with
 `stalltree_stalled_has_runner` (a step is enabled) this is "never waits forever" as bounded
 progress; fairness of the scheduler is what turns it into "eventually".
+
+Block `StallTreeDown`: the two hypotheses derived.  `nextCompaction_moves_down`: on a tree with `Inv`
+whose files hold a version each (`NonEmptyFiles`; C10 `multi_builder_no_empty_file` is why the
+store writes no other file) every answer of `nextCompaction` has an input holding a version at a
+level above its output level (`movesDown`).  `moves_down_stable`: that survives flushes and the
+installs of the compactions `may_choose_compaction` lets be in flight with it.  `outsOK_of_merge`:
+an install whose outputs hold every version once and hold input versions only (C01's `hsub`) adds
+no version.  `downSt_along_run` / `outsOK_along_run`: both hold along every run from a state
+satisfying `Good` (tree invariant, no empty file, every compaction in flight admissible on the
+present tree, moving a version down, apart from the others — an invariant of the runs, true of any
+state with nothing in flight) whose ingested files satisfy `IngestOk` (C01's `Step.ingest` side
+conditions + non-empty) and whose installed outputs satisfy `MergeOuts` (C01's `OutsOk` + `hsub` +
+every version once + no empty file).  `stalled_ingest_released_from_selector` /
+`stalled_ingest_released_of_good`: the release theorem with only those hypotheses left — nothing
+is asked of the selector.  `IngestOk` / `MergeOuts` are hypotheses on the run (facts about the flush
+and the merge, C01 / C10), not derived from a model of the merge here, and not evaluated by the
+driver.
 
 The flush request (`Blue.FlushReq`, lsmtk/src/kvs/mod.rs): NO WRITER WAITS FOR A FLUSH.  A write
 that finds the memtable full raises `imm_trigger`, `notify_one`s `cnd_needs_memtable_flush` and
@@ -667,6 +685,115 @@ example :
 end stalltree
 -- END StallTree
 
+-- BEGIN StallTreeDown
+section stalltreedown
+open Blue.NextCompaction Blue.StallTree
+
+/-- **the selector moves versions down.**  On a tree with `Inv` whose files hold a version each
+    (`NonEmptyFiles`: true of every file the store writes — a table is cut only after an entry was
+    written to it, C10 `multi_builder_no_empty_file`), every answer of `next_compaction`, whatever
+    is in flight, has an input holding a version at a level above its output level: the file of a
+    trivial move, or the file of `lower_level` the range of `compute_bounds` was started from
+    (`find_best_compaction` takes the whole slice of `lower_level`, `expand_compaction` only adds) -/
+theorem nextCompaction_moves_down (n : Blue.NextCompaction.Num) (o : Blue.NextCompaction.Opts) (t : Blue.NextCompaction.Tree)
+    (g : List Blue.NextCompaction.Core) (hinv : Inv t)
+    (hne : NonEmptyFiles t) {c : Blue.NextCompaction.Core} (h : nextCompaction n o t g = some c) : movesDown t c = true :=
+  Blue.StallTree.nextCompaction_moves_down n o t g hinv hne h
+
+example : Inv Ex.s0.tree ∧ NonEmptyFiles Ex.s0.tree
+    ∧ nextCompaction Ex.cfg.num Ex.cfg.opts Ex.s0.tree [] = some ⟨0, 1, 0, 20, [1, 2, 3], 300⟩ :=
+  ⟨invB_sound (by decide), nonEmptyB_sound (by decide), by decide⟩
+
+/-- `movesDown` of a compaction in flight survives a flush (any file) and the install of a
+    compaction `may_choose_compaction` lets be in flight together with it -/
+theorem moves_down_stable {t : Blue.NextCompaction.Tree} {c : Blue.NextCompaction.Core} (h : movesDown t c = true) :
+    (∀ f, movesDown (ingest t f) c = true)
+    ∧ (∀ c₁ outs₁, Inv t → Chosen t c₁ → Chosen t c → overlapping c₁ c = false →
+        movesDown (applyCompaction t c₁ outs₁) c = true) :=
+  Blue.StallTree.moves_down_stable h
+
+/-- two trivial moves at disjoint levels, both admissible -/
+example : movesDown [[Ex.F1], [], [Ex.F2], []] ⟨2, 3, 10, 19, [2], 100⟩ = true
+    ∧ Inv [[Ex.F1], [], [Ex.F2], []] ∧ Chosen [[Ex.F1], [], [Ex.F2], []] ⟨0, 1, 0, 9, [1], 100⟩
+    ∧ Chosen [[Ex.F1], [], [Ex.F2], []] ⟨2, 3, 10, 19, [2], 100⟩
+    ∧ overlapping ⟨0, 1, 0, 9, [1], 100⟩ ⟨2, 3, 10, 19, [2], 100⟩ = false :=
+  ⟨by decide, invB_sound (by decide), chosenB_sound (by decide +kernel), chosenB_sound (by decide +kernel), by decide⟩
+
+/-- **an install of merged outputs adds no version**: the outputs hold every version once and hold
+    versions of the inputs only (C01's `hsub`; GC drops allowed), the compaction is admissible on the
+    tree it is installed on -/
+theorem outsOK_of_merge {t : Blue.NextCompaction.Tree} {c : Blue.NextCompaction.Core} {outs : List Blue.NextCompaction.File} (hinv : Inv t) (hc : Chosen t c)
+    (once : (outs.flatMap (fun o => o.vers)).Nodup)
+    (sub : ∀ o ∈ outs, ∀ e ∈ o.vers, ∃ i f, f ∈ level t i ∧ f.id ∈ c.inputs ∧ e ∈ f.vers) :
+    noNewVers t c outs = true :=
+  Blue.StallTree.outsOK_of_merge hinv hc once sub
+
+example : Inv Ex.s0.tree ∧ Chosen Ex.s0.tree ⟨0, 1, 0, 20, [1, 2, 3], 300⟩
+    ∧ MergeOuts Ex.s0.tree ⟨0, 1, 0, 20, [1, 2, 3], 300⟩ [Ex.O] :=
+  ⟨invB_sound (by decide),
+   nextCompaction_chosen Ex.cfg.num Ex.cfg.opts Ex.s0.tree [] (invB_sound (by decide)) (by decide),
+   mergeOutsB_sound (by decide +kernel)⟩
+
+/-- `downSt` along every run from a state satisfying `Good` (the tree invariant, no empty file,
+    every compaction in flight admissible on the present tree, moving a version down, apart from
+    the others — `good_of_idle`: any state with nothing in flight on a tree with `Inv` and no empty
+    file) whose flushed files satisfy `IngestOk` and whose installed outputs `MergeOuts` -/
+theorem downSt_along_run (cfg : Cfg) (s : Blue.StallTree.St) (evs : List Blue.StallTree.Ev) (h : Good s)
+    (hev : EvOkAlong cfg s evs) : along cfg (downSt cfg) s evs = true :=
+  Blue.StallTree.downSt_along_run cfg s evs h hev
+
+example : Good Ex.s0 ∧ EvOkAlong Ex.cfg Ex.s0 Ex.evs0 :=
+  ⟨good_of_idle (invB_sound (by decide)) (nonEmptyB_sound (by decide)) (by decide),
+   evOkAlong_of_B _ _ _ (by decide +kernel)⟩
+
+/-- `outsOK` along the same runs -/
+theorem outsOK_along_run (cfg : Cfg) (s : Blue.StallTree.St) (evs : List Blue.StallTree.Ev) (h : Good s)
+    (hev : EvOkAlong cfg s evs) : alongEv cfg outsOK s evs = true :=
+  Blue.StallTree.outsOK_along_run cfg s evs h hev
+
+example : Good Ex.s1 ∧ EvOkAlong Ex.cfg1 Ex.s1 Ex.evs1 :=
+  ⟨good_of_idle (invB_sound (by decide)) (nonEmptyB_sound (by decide)) (by decide),
+   evOkAlong_of_B _ _ _ (by decide +kernel)⟩
+
+/-- **bounded progress with the selector's part discharged.**  `stalled_ingest_released` with
+    `downSt` / `outsOK` derived: from a stalled state with nothing in flight on a tree with `Inv`
+    and no empty file, a run with more than `measureG s + 2 * disturbances evs` effective
+    compaction-thread steps whose flushed files are well-formed, fresh, newest and non-empty
+    (`IngestOk`, asked only of a file that is ingested) and whose installed outputs are a merge of
+    the inputs (`MergeOuts`: `OutsOk`, every version once, input versions only, no empty file)
+    passes through a released state.  Nothing is asked of the selector; `Sel` is not needed for
+    the bound (it keeps a step enabled: `stalltree_stalled_has_runner`) -/
+theorem stalled_ingest_released_from_selector (cfg : Cfg) (s : Blue.StallTree.St) (evs : List Blue.StallTree.Ev)
+    (hinv : Inv s.tree) (hne : NonEmptyFiles s.tree) (hidle : og s = [])
+    (hst : stalledT cfg s.tree = true) (hev : EvOkAlong cfg s evs)
+    (hN : measureG s + 2 * disturbances evs < compSteps cfg s evs) :
+    everReleased cfg s evs = true :=
+  Blue.StallTree.stalled_ingest_released_from_selector cfg s evs hinv hne hidle hst hev hN
+
+example : Inv Ex.s1.tree ∧ NonEmptyFiles Ex.s1.tree ∧ og Ex.s1 = [] ∧ stalledT Ex.cfg1 Ex.s1.tree = true
+    ∧ EvOkAlong Ex.cfg1 Ex.s1 Ex.evs1
+    ∧ measureG Ex.s1 + 2 * disturbances Ex.evs1 < compSteps Ex.cfg1 Ex.s1 Ex.evs1 :=
+  ⟨invB_sound (by decide), nonEmptyB_sound (by decide), by decide, by decide,
+   evOkAlong_of_B _ _ _ (by decide +kernel), by decide⟩
+
+/-- the same from any state satisfying `Good` — every state a run reaches from one with nothing in
+    flight (`good_run`), compactions in flight included -/
+theorem stalled_ingest_released_of_good (cfg : Cfg) (s : Blue.StallTree.St) (evs : List Blue.StallTree.Ev)
+    (hgood : Good s) (hst : stalledT cfg s.tree = true) (hev : EvOkAlong cfg s evs)
+    (hN : measureG s + 2 * disturbances evs < compSteps cfg s evs) :
+    everReleased cfg s evs = true :=
+  Blue.StallTree.stalled_ingest_released_of_good cfg s evs hgood hst hev hN
+
+/-- the `[[A, B], [C]]` run after its selection: the hull compaction is in flight -/
+example : Good (Blue.StallTree.run Ex.cfg Ex.s0 [.ingest 0 Ex.D, .select 0])
+    ∧ stalledT Ex.cfg (Blue.StallTree.run Ex.cfg Ex.s0 [.ingest 0 Ex.D, .select 0]).tree = true
+    ∧ og (Blue.StallTree.run Ex.cfg Ex.s0 [.ingest 0 Ex.D, .select 0]) = [⟨0, 1, 0, 20, [1, 2, 3], 300⟩] :=
+  ⟨good_run Ex.cfg (good_of_idle (invB_sound (by decide)) (nonEmptyB_sound (by decide)) (by decide)) _
+     (evOkAlong_of_B _ _ _ (by decide +kernel)), by decide, by decide⟩
+
+end stalltreedown
+-- END StallTreeDown
+
 end Blue.Props.C20
 
 #print axioms Blue.Props.C20.writes_never_all_parked_partial
@@ -728,3 +855,10 @@ end Blue.Props.C20
 #print axioms Blue.Props.C20.request_served_in_one_step
 #print axioms Blue.Props.C20.request_during_flush_is_forgotten
 #print axioms Blue.Props.C20.forgotten_request_is_reissued
+#print axioms Blue.Props.C20.nextCompaction_moves_down
+#print axioms Blue.Props.C20.moves_down_stable
+#print axioms Blue.Props.C20.outsOK_of_merge
+#print axioms Blue.Props.C20.downSt_along_run
+#print axioms Blue.Props.C20.outsOK_along_run
+#print axioms Blue.Props.C20.stalled_ingest_released_from_selector
+#print axioms Blue.Props.C20.stalled_ingest_released_of_good
